@@ -128,6 +128,23 @@ __CPROVER_assigns(*f1)
 def extended_units(tier):
     """scalar kernel of extend_filtration (two statement slices) and decode_extended_filtration"""
     U = []
+    # the scan over the vertices that finds the range of the vertex function (loop body as a function)
+    Gs = "#include <math.h>\ntypedef double Filtration_value; typedef int Vertex_handle;\ndouble nondet_double(void); int nondet_int(void);\n"
+    f_scan = Fn(ST, r"Extended_filtration_data extend_filtration\(\)", "ef_scan_step", """
+__CPROVER_requires(!isnan(fval) && !isnan(*minval) && !isnan(*maxval))
+__CPROVER_ensures(*minval == (fval < __CPROVER_old(*minval) ? fval : __CPROVER_old(*minval)))
+__CPROVER_ensures(*maxval == (__CPROVER_old(*maxval) < fval ? fval : __CPROVER_old(*maxval)))
+__CPROVER_ensures(*maxvert == (__CPROVER_old(*maxvert) < label ? label : __CPROVER_old(*maxvert)))
+__CPROVER_assigns(*minval, *maxval, *maxvert)
+""", piece={"kind": "loop", "ordinal": 0, "sig": "void ef_scan_step(Filtration_value* minval, Filtration_value* maxval, Vertex_handle* maxvert, Filtration_value fval, Vertex_handle label)",
+            "byref": ["minval", "maxval", "maxvert"]},
+                subs=[(r"const Filtration_value& f = this->filtration\(sh\);", "Filtration_value f = fval;"), (r"sh->first", "label", 0),
+                      (r"std::min\(", "VP_MIN(", 0), (r"std::max\(", "VP_MAX(", 0)],
+                canary=(r"\(\*maxval\) = ", "(*minval) = "))
+    U.append(Unit("extended.scan_step", "C03", [f_scan], enforce="ef_scan_step", globals_=Gs, inputs=["in_min", "in_max", "in_f"], runs=[Run(backend="kissat", timeout=120)],
+                  harness="int main(void) {\n  double in_min = nondet_double(), in_max = nondet_double(), in_f = nondet_double(); int in_mv = nondet_int(), in_l = nondet_int();\n"
+                          "  double x_min = in_min, x_max = in_max; int x_mv = in_mv;\n  ef_scan_step(&x_min, &x_max, &x_mv, in_f, in_l);\n  __CPROVER_assert(0, \"VP_REACH\");\n  return 0;\n}\n",
+                  desc="extend_filtration, scan over the vertices (loop body): the running minimum / maximum of the vertex values and the largest vertex label are updated exactly"))
     for T, fl, tiers in (("_Float16", "half", ("quick", "thorough")), ("float", "float", ("quick", "thorough")), ("double", "double", ("thorough",))):
         if tier not in tiers:
             continue
